@@ -64,10 +64,15 @@ MSet(m, v) ==
   IF v.t \in {"int", "str", "bool"} THEN
        IF NameBad(v.name) THEN [err |-> "INVALID", map |-> m]
        ELSE IF v.t = "str" /\ v.val = NONE THEN [err |-> "INVALID", map |-> m]
+       \* an unstorable value for an existing name without replace: refused either way, EXIST (the code) or INVALID
+       ELSE IF v.name \in DOMAIN m /\ v.replace = 0 /\ v.t = "str" /\ v.val \in BadUtf8Vals
+            THEN [err |-> "EXIST", erralt |-> "INVALID", map |-> m]
        ELSE IF v.name \in DOMAIN m /\ v.replace = 0 THEN [err |-> "EXIST", map |-> m]
        \* a named deviation, as the code has it: a string that is not UTF-8 is refused only after a replaced
-       \* member has been removed (the statement speaks of empty names and malformed JSON text only)
-       ELSE IF v.t = "str" /\ v.val \in BadUtf8Vals THEN [err |-> "INVALID", map |-> MapDel(m, v.name)]
+       \* member has been removed (the statement speaks of empty names and malformed JSON text only).  `alt`
+       \* is the other outcome the statement allows just as well - refused with no change - so that repairing
+       \* the deviation raises no alarm
+       ELSE IF v.t = "str" /\ v.val \in BadUtf8Vals THEN [err |-> "INVALID", map |-> MapDel(m, v.name), alt |-> m]
        ELSE [err |-> "NONE", map |-> MapPut(m, v.name, MemberOf(v))]
   ELSE IF v.t = "json" THEN
        IF v.jcls = "objx" THEN [err |-> ANY, map |-> m]      \* opaque object (contents not modelled, C05)
